@@ -12,7 +12,12 @@ import (
 	"bytes"
 	"io"
 	"os"
+
+	"github.com/douban/gobeansdb/cmem"
+	"github.com/douban/gobeansdb/config"
 )
+
+var _ = cmem.DBRL
 
 var _ = bufio.NewReader
 var _ = io.EOF
@@ -92,3 +97,146 @@ func iteInt(c bool, a, b int) int {
 //@   ensures le32(wrec.header[:], 4) == wrec.rec.Payload.TS && le32(wrec.header[:], 8) == wrec.rec.Payload.Flag && le32(wrec.header[:], 12) == uint32(wrec.rec.Payload.Ver)
 //@   ensures le32(wrec.header[:], 16) == wrec.ksz && le32(wrec.header[:], 20) == wrec.vsz
 //@   ensures le32(wrec.header[:], 0) == specRecordCRC(wrec.header[4:], wrec.rec.Key, wrec.rec.Payload.Body)
+
+// ---------- C09: what a valid record in a data file is (from the statement) ----------
+
+// little-endian 32-bit field of the file
+func fileLE32(f *os.File, o int) uint32 {
+	return uint32(fileByte(f, o)) + uint32(fileByte(f, o+1))*256 + uint32(fileByte(f, o+2))*65536 + uint32(fileByte(f, o+3))*16777216
+}
+
+// CRC fold over n file bytes starting at off
+func specCRCFoldF(c uint32, f *os.File, off, n int) uint32 {
+	if n <= 0 {
+		return c
+	}
+	return specCRCByte(specCRCFoldF(c, f, off, n-1), fileByte(f, off+n-1))
+}
+
+func specKsz(f *os.File, off int) int { return int(fileLE32(f, off+16)) }
+func specVsz(f *os.File, off int) int { return int(fileLE32(f, off+20)) }
+
+// specValidAt: the bytes at offset off of the data file are an intact record: the header lies in
+// the file, key and value sizes are admissible, the whole record lies in the file, and the stored
+// CRC equals the CRC-32 of header[4:24] ‖ key ‖ value.
+func specValidAt(f *os.File, off int) bool {
+	if off < 0 || off+24 > fileSize(f) {
+		return false
+	}
+	ksz, vsz := specKsz(f, off), specVsz(f, off)
+	if ksz == 0 || ksz > config.MCConf.MaxKeyLen || int64(vsz) > config.MCConf.BodyMax {
+		return false
+	}
+	if off+24+ksz+vsz > fileSize(f) {
+		return false
+	}
+	return fileLE32(f, off) == ^specCRCFoldF(specCRCFoldF(specCRCFoldF(^uint32(0), f, off+4, 20), f, off+24, ksz), f, off+24+ksz, vsz)
+}
+
+// lemma: a fold over a slice equals the fold over the file range it was read from
+func lemmaFoldFile(c uint32, d []byte, f *os.File, off, n int) bool {
+	if n > 0 {
+		lemmaFoldFile(c, d, f, off, n-1)
+	}
+	return true
+}
+
+//@ func lemmaFoldFile
+//@   props C09
+//@   ints math
+//@   opaque specCRCByte
+//@   requires 0 <= n && n <= len(d) && forall(0, n, func(i int) bool { return d[i] == fileByte(f, off+i) })
+//@   decreases n
+//@   ensures specCRCFold(c, d, n) == specCRCFoldF(c, f, off, n)
+
+// configuration of the protocol limits (validated at start-up)
+func mcConfOK() bool {
+	return 1 <= config.MCConf.MaxKeyLen && config.MCConf.MaxKeyLen <= 250 && 0 <= config.MCConf.BodyMax && config.MCConf.BodyMax < 1<<31 && 0 <= config.MCConf.BodyInC
+}
+
+//@ func readRecordAt
+//@   props C09 C01
+//@   ints math
+//@   opaque specCRCByte specCRCFold specCRCFoldF
+//@   requires f != nil && mcConfOK()
+//@   modifies ghostFail(), cmem.DBRL.GetData.Size, cmem.DBRL.GetData.MaxSize, cmem.DBRL.GetData.Count, cmem.DBRL.GetData.MaxCount, cmem.AllocRL.Size, cmem.AllocRL.MaxSize, cmem.AllocRL.Count, cmem.AllocRL.MaxCount
+//@   ghost after getCRC#1: lemmaFoldFile(^uint32(0), wrec.header[4:], f, int(offset)+4, 20)
+//@   ghost after getCRC#1: lemmaFoldFile(specCRCFold(^uint32(0), wrec.header[4:], 20), wrec.rec.Key, f, int(offset)+24, len(wrec.rec.Key))
+//@   ghost after getCRC#1: lemmaFoldFile(specCRCFold(specCRCFold(^uint32(0), wrec.header[4:], 20), wrec.rec.Key, len(wrec.rec.Key)), wrec.rec.Payload.Body, f, int(offset)+24+len(wrec.rec.Key), len(wrec.rec.Payload.Body))
+//@   ensures err != nil ==> wrec == nil
+//@   ensures err == nil ==> wrec != nil && fresh(wrec) && wrec.rec != nil && wrec.rec.Payload != nil
+//@   ensures err == nil ==> specValidAt(f, int(offset))
+//@   ensures err == nil ==> int(offset)+24 <= fileSize(f)
+//@   ensures err == nil ==> specKsz(f, int(offset)) != 0 && specKsz(f, int(offset)) <= config.MCConf.MaxKeyLen && int64(specVsz(f, int(offset))) <= config.MCConf.BodyMax
+//@   ensures err == nil ==> int(offset)+24+specKsz(f, int(offset))+specVsz(f, int(offset)) <= fileSize(f)
+//@   ensures err == nil ==> fileLE32(f, int(offset)) == ^specCRCFoldF(specCRCFoldF(specCRCFoldF(^uint32(0), f, int(offset)+4, 20), f, int(offset)+24, specKsz(f, int(offset))), f, int(offset)+24+specKsz(f, int(offset)), specVsz(f, int(offset)))
+//@   ensures err == nil ==> len(wrec.rec.Key) == specKsz(f, int(offset)) && len(wrec.rec.Payload.Body) == specVsz(f, int(offset))
+//@   ensures err == nil ==> forall(0, len(wrec.rec.Key), func(i int) bool { return wrec.rec.Key[i] == fileByte(f, int(offset)+24+i) })
+//@   ensures err == nil ==> forall(0, len(wrec.rec.Payload.Body), func(i int) bool { return wrec.rec.Payload.Body[i] == fileByte(f, int(offset)+24+len(wrec.rec.Key)+i) })
+//@   ensures err == nil ==> wrec.rec.Payload.TS == fileLE32(f, int(offset)+4) && wrec.rec.Payload.Flag == fileLE32(f, int(offset)+8) && wrec.rec.Payload.Ver == int32(fileLE32(f, int(offset)+12))
+//@   ensures err != nil && !ioFailed() ==> !specValidAt(f, int(offset))
+
+//@ func newWriteRecord
+//@   props C09
+//@   ints both
+//@   inline
+
+func specPaddedInt(n int) int { return ((n + 255) / 256) * 256 }
+
+// nextValid: resynchronisation of the sequential scan after damage. The record returned is the
+// one at the FIRST 256-aligned offset at or after the current (rounded down) position where an
+// intact record lies; the stream continues right behind it; nil only if no aligned offset up to
+// the end of the file holds an intact record.
+//@ func (stream *DataStreamReader) nextValid
+//@   props C09
+//@   ints math
+//@   reliable_io
+//@   opaque specCRCByte specCRCFold specCRCFoldF
+//@   requires stream.fd != nil && stream.rbuf != nil && mcConfOK() && fileSize(stream.fd) <= 1<<32-512
+//@   modifies stream.offset, ghostFilePos(stream.fd), ghostReader(stream.rbuf), ghostFail(), cmem.DBRL.GetData.Size, cmem.DBRL.GetData.MaxSize, cmem.DBRL.GetData.Count, cmem.DBRL.GetData.MaxCount, cmem.AllocRL.Size, cmem.AllocRL.MaxSize, cmem.AllocRL.Count, cmem.AllocRL.MaxCount
+//@   ensures err == nil
+//@   ensures rec != nil ==> int(offset)%256 == 0 && int(offset) >= old(int(stream.offset))-old(int(stream.offset))%256 && specValidAt(stream.fd, int(offset))
+//@   ensures rec != nil ==> int(stream.offset) == int(offset)+specPaddedInt(24+specKsz(stream.fd, int(offset))+specVsz(stream.fd, int(offset)))
+//@   ensures rec != nil ==> readerPos(stream.rbuf) == int(stream.offset) && readerOn(stream.rbuf, stream.fd)
+//@   ensures rec != nil ==> rec.Payload != nil && len(rec.Key) == specKsz(stream.fd, int(offset)) && len(rec.Payload.Body) == specVsz(stream.fd, int(offset))
+//@   ensures rec != nil ==> forall(0, len(rec.Key), func(i int) bool { return rec.Key[i] == fileByte(stream.fd, int(offset)+24+i) })
+//@   ensures rec != nil ==> forall(0, len(rec.Payload.Body), func(i int) bool { return rec.Payload.Body[i] == fileByte(stream.fd, int(offset)+24+len(rec.Key)+i) })
+//@   ensures !ioFailed() ==> forall(old(int(stream.offset))-old(int(stream.offset))%256, iteInt(rec != nil, int(offset), fileSize(stream.fd)), func(o int) bool { return o%256 != 0 || !specValidAt(stream.fd, o) })
+//@   ensures int(sizeBroken) == int(offset)-(old(int(stream.offset))-old(int(stream.offset))%256)
+//@   loop 1 invariant int(offset2)%256 == 0 && int(offset2) >= old(int(stream.offset))-old(int(stream.offset))%256
+//@   loop 1 invariant int(sizeBroken) == int(offset2)-(old(int(stream.offset))-old(int(stream.offset))%256)
+//@   loop 1 invariant !ioFailed() ==> forall(old(int(stream.offset))-old(int(stream.offset))%256, int(offset2), func(o int) bool { return o%256 != 0 || !specValidAt(stream.fd, o) })
+//@   loop 1 invariant sameFile(fd, stream.fd) && fd != nil && st != nil
+
+// streamSync: the buffered reader delivers the file from stream.offset on, or is at the end of the
+// file when stream.offset lies beyond it (a last record whose padding is cut short).
+func streamSync(stream *DataStreamReader) bool {
+	return readerOn(stream.rbuf, stream.fd) && (readerPos(stream.rbuf) == int(stream.offset) ||
+		(readerPos(stream.rbuf) == fileSize(stream.fd) && int(stream.offset) >= fileSize(stream.fd)))
+}
+
+// Next: sequential scan. Precondition: the buffered reader delivers the file from stream.offset on
+// (established by newDataStreamReader/seek+Reset and maintained by Next itself). A record is
+// returned only if it is intact (specValidAt), it is the first intact 256-aligned record at or
+// after the current position, its bytes are the file's bytes, and the stream continues right
+// behind its padding; (nil, nil) only if nothing intact is left.
+//@ func (stream *DataStreamReader) Next
+//@   props C09
+//@   ints math
+//@   reliable_io
+//@   opaque specCRCByte specCRCFold specCRCFoldF
+//@   requires stream.fd != nil && stream.rbuf != nil && mcConfOK() && fileSize(stream.fd) <= 1<<32-512
+//@   requires int(stream.offset)%256 == 0 && streamSync(stream)
+//@   requires len(stream.maxBodyBuf) == 0 && int64(cap(stream.maxBodyBuf)) >= config.MCConf.BodyMax
+//@   modifies stream.offset, elems(stream.maxBodyBuf), ghostFilePos(stream.fd), ghostReader(stream.rbuf), ghostFail(), cmem.DBRL.GetData.Size, cmem.DBRL.GetData.MaxSize, cmem.DBRL.GetData.Count, cmem.DBRL.GetData.MaxCount, cmem.AllocRL.Size, cmem.AllocRL.MaxSize, cmem.AllocRL.Count, cmem.AllocRL.MaxCount
+//@   ghost after getCRC#1: lemmaFoldFile(^uint32(0), wrec.header[4:], stream.fd, int(stream.offset)+4, 20)
+//@   ghost after getCRC#1: lemmaFoldFile(specCRCFold(^uint32(0), wrec.header[4:], 20), wrec.rec.Key, stream.fd, int(stream.offset)+24, len(wrec.rec.Key))
+//@   ghost after getCRC#1: lemmaFoldFile(specCRCFold(specCRCFold(^uint32(0), wrec.header[4:], 20), wrec.rec.Key, len(wrec.rec.Key)), wrec.rec.Payload.Body, stream.fd, int(stream.offset)+24+len(wrec.rec.Key), len(wrec.rec.Payload.Body))
+//@   ensures res != nil ==> err == nil && int(offset)%256 == 0 && int(offset) >= old(int(stream.offset)) && specValidAt(stream.fd, int(offset))
+//@   ensures res != nil ==> int(stream.offset) == int(offset)+specPaddedInt(24+specKsz(stream.fd, int(offset))+specVsz(stream.fd, int(offset)))
+//@   ensures res != nil && !ioFailed() ==> streamSync(stream)
+//@   ensures res != nil ==> res.Payload != nil && len(res.Key) == specKsz(stream.fd, int(offset)) && len(res.Payload.Body) == specVsz(stream.fd, int(offset))
+//@   ensures res != nil ==> forall(0, len(res.Key), func(i int) bool { return res.Key[i] == fileByte(stream.fd, int(offset)+24+i) })
+//@   ensures res != nil ==> forall(0, len(res.Payload.Body), func(i int) bool { return res.Payload.Body[i] == fileByte(stream.fd, int(offset)+24+len(res.Key)+i) })
+//@   ensures res != nil && !ioFailed() ==> forall(old(int(stream.offset)), int(offset), func(o int) bool { return o%256 != 0 || !specValidAt(stream.fd, o) })
+//@   ensures res == nil && err == nil && !ioFailed() ==> forall(old(int(stream.offset)), fileSize(stream.fd), func(o int) bool { return o%256 != 0 || !specValidAt(stream.fd, o) })
